@@ -103,19 +103,26 @@ func NewPageTree(root core.Dict, resolver ObjectResolver) *PageTree {
 	}
 }
 
-// Count returns the total number of pages
+// Count returns the total number of pages: the number of /Page leaves of the
+// tree. The root's /Count entry must be present and an integer, but its value
+// is not trusted - it comes from the file and callers size their work by it.
 func (t *PageTree) Count() (int, error) {
 	countObj := t.root.Get("Count")
 	if countObj == nil {
 		return 0, fmt.Errorf("page tree missing /Count entry")
 	}
 
-	count, ok := countObj.(core.Int)
-	if !ok {
+	if _, ok := countObj.(core.Int); !ok {
 		return 0, fmt.Errorf("invalid /Count type: %T", countObj)
 	}
 
-	return int(count), nil
+	if t.pages == nil {
+		if err := t.loadPages(); err != nil {
+			return 0, err
+		}
+	}
+
+	return len(t.pages), nil
 }
 
 // GetPage returns the page at the given index (0-based)
